@@ -247,6 +247,8 @@ ResumeYStar(o, f, n) ==
        /\ UNCHANGED <<gk, gcur>> /\ gst' = "run" /\ k' = rest
        /\ (IF n.k = 1          \* inner iterator has throw(): it logs and rethrows the value
            THEN log' = Append(log, 45000 + n.l * 100) /\ mode' = "unw" /\ comp' = Throw(o.v)
+           ELSE IF n.k = 2     \* its throw() completes the inner iterator: {value: 55, done: true} is the value of yield*
+           THEN log' = log \o <<45000 + n.l * 100, 8055>> /\ mode' = "adv" /\ comp' = Normal
            ELSE \* no throw method: close the inner iterator, then TypeError (observed as throw 9999)
                 /\ log' = (IF n.b = 1 THEN Append(log, 40000 + n.l * 100) ELSE log)
                 /\ mode' = "unw" /\ comp' = (IF n.b = 1 /\ n.c = 1 THEN Throw(8) ELSE Throw(9999)))
